@@ -729,6 +729,11 @@ class CallMixin:
             raise Unsupported('has_class needs a reference of statically known class')
         return [Res(p, VBool(v.cls == q or (v.cls in self.repo.classes and self.repo.is_subclass(v.cls, q))))]
 
+    def sp_key_of(self, node, p, fc):
+        """key_of(x): the integer a dict uses as key for x (addresses and identifiers share the key space of a dict)"""
+        v = self.ev(node.args[0], p, fc)[0].v
+        return [Res(p, VInt(self.key_term(v, p)))]
+
     def sp_obj_at(self, node, p, fc):
         """obj_at(i): the object with reference number i (to quantify over all objects)"""
         v = self.ev(node.args[0], p, fc)[0].v
